@@ -259,6 +259,9 @@ def rule_dummy_delegation(ctx):
             if ok and m != "new_argument":
                 ok = any(o.kind == "call" and o.site.bb == calls[0].bb for o in origins(b, {"l": 0, "p": []}, transparent=()))
             r.check(ok, b.id, "not-forwarded", "%s forwards to AAFramework::%s and returns its result" % (m, m), "%s does not forward to AAFramework::%s (or drops its result)" % (m, m), b.loc())
+            # ... and applies no other update to the framework (a redundant update must stay a no-op of the store)
+            extra = [s for y in prog.with_closures(b) for s in y.calls() if callee_matches(callee_of(s), r"^aa::aa_framework::AAFramework::(new_argument|remove_argument|new_attack|remove_attack|new_attack_by_ids)$") and not callee_matches(callee_of(s), r"^aa::aa_framework::AAFramework::%s$" % m)]
+            r.check(not extra, b.id + "|only", "second-update:%s" % sorted({callee_decl(callee_of(s)).rsplit("::", 1)[-1] for s in extra}), "%s applies no other update to the framework" % m, "%s also applies %s to the framework: the update is no longer the store's own (a redundant or invalid update changes it)" % (m, sorted({callee_decl(callee_of(s)).rsplit("::", 1)[-1] for s in extra})), extra[0].loc() if extra else b.loc())
         # no other state: fields are the framework and the factory only
         others = [t for t in ftys if not (t.startswith("aa::aa_framework::AAFramework<") or "dyn" in t)]
         r.check(not others, adt["path"], "extra-state:%s" % others, "holds only the framework and the computer factory", loc=None)
